@@ -1,6 +1,6 @@
 (* C16 -- Line endings and reserved control characters (partial).  Property theorems only. *)
 From Rimu Require Import Base Regex RegexParse Str Types Tables Guards State Inline Block
-  Frame FrameBlock FrameInst OptionsLemmas MiscLemmas.
+  Frame FrameBlock FrameInst OptionsLemmas MiscLemmas Lines.
 
 (* the reader treats U+0000..U+0002 as blanks: a source and its blanked version give the same reader *)
 Theorem C16_blanked : forall text, mk_reader (blank_reserved text) = mk_reader text.
@@ -15,6 +15,35 @@ Print Assumptions C16_blank_spec.
 Theorem C16_reader_reserved_free : forall text, forallb (fun c => negb (reserved c)) (blank_reserved text) = true.
 Proof. exact blank_reserved_free. Qed.
 Print Assumptions C16_reader_reserved_free.
+
+(* the reader splits on the *generated* pattern exactly as the reference splitter: CR LF, CR and LF end a line *)
+Theorem C16_reader_spec : forall text, mk_reader text = split_lines (blank_reserved text).
+Proof. exact mk_reader_spec. Qed.
+Print Assumptions C16_reader_spec.
+
+(* decode after encode: whatever terminator is chosen for each line, the lines come back (a CR terminator directly
+   followed by an empty LF-terminated line is the one inherently ambiguous combination and is excluded) *)
+Theorem C16_lines : forall ls ts, ls <> [] -> Forall nlfree ls -> unambiguous ls ts ->
+  split_lines (encode ls ts) = ls.
+Proof. exact split_encode. Qed.
+Print Assumptions C16_lines.
+
+(* two sources with the same lines render identically from every session, with every option set and fuel *)
+Theorem C16_same_lines : forall n t1 t2 o s,
+  split_lines (blank_reserved t1) = split_lines (blank_reserved t2) -> api_render n t1 o s = api_render n t2 o s.
+Proof. exact api_render_same_lines. Qed.
+Print Assumptions C16_same_lines.
+
+(* hence a source renders identically whether its lines end in LF, CR LF or CR, uniformly or mixed *)
+Theorem C16_render_recode : forall n ls ts ts' o s,
+  ls <> [] -> Forall nlfree ls -> unambiguous ls ts -> unambiguous ls ts' ->
+  (forall l, In l ls -> blank_reserved l = l) ->
+  api_render n (encode ls ts) o s = api_render n (encode ls ts') o s.
+Proof. exact render_recode. Qed.
+Print Assumptions C16_render_recode.
+
+Example C16_ex_lines : split_lines (encode [[97]; [98]; []; [99]] [TCRLF; TLF; TCR]) = [[97]; [98]; []; [99]].
+Proof. vm_compute. reflexivity. Qed.
 
 Example C16_ex : mk_reader [97; 13; 10; 98; 13; 99; 10; 0; 100] = [[97]; [98]; [99]; [32; 100]].
 Proof. vm_compute. reflexivity. Qed.
